@@ -56,8 +56,8 @@ ValsetEvents(s) ==
        \cup (IF s.height >= 1 /\ (s.phase = "out" \/ DOMAIN s.lastPow # {o \in DOMAIN s.vals : s.vals[o].power > 0}) THEN {[type |-> "ExportImport"]} ELSE {})
 
 Plans(s) ==
-  {[type |-> "RegisterPlan", id |-> 1, height |-> h, op |-> o, key |-> k, execs |-> <<"e2">>] :
-      h \in {s.height + 1, s.height + 2} \cap 1..MaxH, o \in {"v1", "v3"}, k \in {"k1", "k3"}}
+  {[type |-> "RegisterPlan", id |-> 1, height |-> h, op |-> o, key |-> k, execs |-> x] :
+      h \in {s.height + 1, s.height + 2} \cap 1..MaxH, o \in {"v1", "v3"}, k \in {"k1", "k3"}, x \in {<<"e2">>, <<"e2", "e3">>}}
   \cup {[type |-> "RegisterPlan", id |-> i, height |-> h, op |-> o, key |-> k, execs |-> x] :
       i \in {0, 1}, h \in {0, s.height + 1}, o \in {"v3", "bad:notbech32"}, k \in {"k3", "nil"}, x \in {<<"e2">>, <<"bad:notbech32">>}}
 PlanEvents(s) ==
@@ -70,7 +70,7 @@ Events(s) == CASE Fam = "valset" -> ValsetEvents(s) [] Fam = "plan" -> PlanEvent
 
 S0 == InitState(Params0, Rank)
 ASSUME PrintT("META " \o ToJson([ops |-> <<"v1", "v2", "v3">>, keys |-> Keys, params |-> Params0,
-                                   accts |-> {"adm", "e1", "e2", "x", "opchild", "feecollector"}, denoms |-> {"n1"}, funded |-> [x |-> [n1 |-> 1]], devs |-> Devs]))
+                                   accts |-> {"adm", "e1", "e2", "e3", "x", "opchild", "feecollector"}, denoms |-> {"n1"}, funded |-> [x |-> [n1 |-> 1]], devs |-> Devs]))
 
 Init == /\ st = S0
         /\ last = [e |-> [type |-> "Init"], ok |-> TRUE, resp |-> NoResp, failed |-> {}]
